@@ -56,6 +56,15 @@ def call_builtin(ex, f, args, kwargs, line):
                 raise Raised(TypeError, line, implicit=True)
         if any(isinstance(a, (float, SReal)) for a in args):
             raise Raised(TypeError, line, implicit=True, note="range of float")
+        cargs = []
+        for a_ in args:
+            if isinstance(a_, int):
+                cargs.append(a_)
+            else:
+                cv = ex.ctx.concretize(zint(a_))
+                cargs.append(cv)
+        if all(c is not None for c in cargs):
+            return range(*cargs)
         if len(args) == 1:
             return RangeVal(0, args[0])
         if len(args) == 2:
@@ -391,6 +400,17 @@ def _isinstance(ex, x, t):
 def native_method(ex, recv, name, args, kwargs, line):
     from .symexec import Raised, PIter, zint, mk_int, mk_bool, as_sstr, try_concrete_str, is_strlike
     _used(ex, "%s.%s" % (type(recv).__name__, name))
+    if isinstance(recv, FileObj):
+        if name == "read" and len(args) == 1:
+            k = zint(args[0])
+            d = recv.data
+            avail = ghost.zmax0(d.length - recv.pos)
+            n = z3.simplify(z3.If(k < avail, ghost.zmax0(k), avail))
+            out = SStr(n, d.arr, z3.simplify(d.off + recv.pos), is_bytes=True)
+            ex.note_write(recv)
+            recv.pos = z3.simplify(recv.pos + n)
+            return out
+        raise Unsupported("file method %s" % name)
     # ---------------- lists
     if isinstance(recv, PList):
         it = recv.items
